@@ -198,6 +198,31 @@ Proof.
   - apply IHa; [exact Hsup|lia].
 Qed.
 
+(* the same from success alone: whenever the reference semantics returns a value at all (with whatever fuel), it is the tree value *)
+Lemma eval_expr_ok e : supported e = true ->
+  forall fuel in_matrix ss x s1, eval_expr rt mt fuel in_matrix ss e = ROk x s1 -> s1 = ss /\ peval (rd_sem ss) (rg_sem ss) e = Ok x.
+Proof.
+  induction e as [l|m|x|r|g args|op a IHa b IHb|a IHa|a IHa|a IHa]; intros Hsup fuel im ss v s1 He; cbn [supported] in Hsup;
+    (destruct fuel as [|fuel]; [discriminate|]); cbn [eval_expr peval] in *.
+  - injection He as Hv Hs. subst. auto.
+  - destruct (macro mt m); try discriminate; cbn [operand_value] in He; injection He as Hv Hs; subst; auto.
+  - unfold operand_value, rd_sem, pushable in *. destruct (lookup ss x); try discriminate; injection He as Hv Hs; subst; auto.
+  - unfold operand_value, rg_sem, pushable in *. cbn [bind]. destruct (rreg (s_regs ss) r); try discriminate; injection He as Hv Hs; subst; auto.
+  - discriminate.
+  - apply andb_true_iff in Hsup. destruct Hsup as [Ha Hb].
+    destruct (eval_expr rt mt fuel im ss a) as [xa sa|ea sa|sa] eqn:Ea; cbn [sbind] in He; try discriminate.
+    destruct (IHa Ha fuel im ss xa sa Ea) as [-> Hpa].
+    destruct (eval_expr rt mt fuel im ss b) as [xb sb|eb sb|sb] eqn:Eb; cbn [sbind] in He; try discriminate.
+    destruct (IHb Hb fuel im ss xb sb Eb) as [-> Hpb].
+    rewrite Hpa, Hpb. cbn [bind]. destruct (eval_binop (binop_operator op) xa xb); cbn [lift_res] in He; try discriminate.
+    injection He as Hv Hs. subst. auto.
+  - destruct (eval_expr rt mt fuel im ss a) as [xa sa|ea sa|sa] eqn:Ea; cbn [sbind] in He; try discriminate.
+    destruct (IHa Hsup fuel im ss xa sa Ea) as [-> Hpa]. rewrite Hpa. cbn [bind].
+    destruct (neg_value xa); cbn [lift_res] in He; try discriminate. injection He as Hv Hs. subst. auto.
+  - exact (IHa Hsup fuel im ss v s1 He).
+  - exact (IHa Hsup fuel im ss v s1 He).
+Qed.
+
 (* peval depends on the readers only through the names and registers it reads *)
 Lemma peval_ext rd1 rg1 rd2 rg2 e : (forall x, rd1 x = rd2 x) -> (forall r, register_eqb r R_PC = false -> rg1 r = rg2 r) ->
   supported e = true -> peval rd1 rg1 e = peval rd2 rg2 e.
